@@ -574,7 +574,10 @@ func c20Trees(c *Ctx) []rnode {
 	if !c.Quick() {
 		maxChain = 5
 	}
-	tails := [][]rnode{{{T: "leaf"}}, {{T: "leaf"}, {T: "leaf"}}, {{T: "C"}}, {{T: "C", Paren: true}}, {}, {{T: "tnilS"}}, {{T: "tnilC"}}, {{T: "tnilA"}}, {{T: "C", Ex: &rnode{T: "S", K: "AND", Kids: []rnode{{T: "S", K: "OR", Kids: []rnode{{T: "leaf"}, {T: "leaf"}}}}}}}}
+	tails := [][]rnode{{{T: "leaf"}}, {{T: "leaf"}, {T: "leaf"}}, {{T: "C"}}, {{T: "C", Paren: true}}, {}, {{T: "tnilS"}}, {{T: "tnilC"}}, {{T: "tnilA"}},
+		// several children, the first of which is itself a Stack or a Condition (a run of envelopes above
+		// such a stack must stop there)
+		{{T: "C"}, {T: "leaf"}}, {{T: "S", K: "OR", Kids: []rnode{{T: "leaf"}}}, {T: "leaf"}}, {{T: "C"}, {T: "C"}}, {{T: "leaf"}, {T: "C"}}, {{T: "S", K: "AND", Kids: []rnode{{T: "C"}, {T: "leaf"}}}, {T: "C"}, {T: "leaf"}}, {{T: "C", Ex: &rnode{T: "S", K: "AND", Kids: []rnode{{T: "S", K: "OR", Kids: []rnode{{T: "leaf"}, {T: "leaf"}}}}}}}}
 	var chains func(depth int, inner rnode)
 	chains = func(depth int, inner rnode) {
 		trees = append(trees, rnode{T: "S", K: "AND", Kids: []rnode{inner}}, rnode{T: "S", K: "OR", Kids: []rnode{{T: "leaf"}, inner, {T: "leaf"}}})
@@ -590,6 +593,22 @@ func c20Trees(c *Ctx) []rnode {
 		for _, h := range headers[:4] {
 			h.Kids = t
 			chains(1, h)
+		}
+	}
+	// a Condition holding a two-level Stack, next to (before / after / two away from) an envelope that
+	// Reveal removes: every pairing of headers for the two levels, three innermost contents
+	for _, h1 := range headers {
+		for _, h2 := range headers {
+			for _, in := range [][]rnode{{{T: "leaf"}, {T: "leaf"}}, {{T: "leaf"}}, {{T: "C"}}} {
+				lvl2 := h2
+				lvl2.Kids = in
+				lvl1 := h1
+				lvl1.Kids = []rnode{lvl2}
+				x := rnode{T: "C", Ex: &lvl1}
+				for _, e := range []rnode{{T: "S", K: "AND", Kids: []rnode{{T: "C"}}}, {T: "S", K: "OR", Kids: []rnode{{T: "S", K: "AND", Kids: []rnode{{T: "leaf"}, {T: "leaf"}}}}}, {T: "S", K: "LIST", Kids: []rnode{{T: "leaf"}}}} {
+					trees = append(trees, rnode{T: "S", K: "AND", Kids: []rnode{x, e}}, rnode{T: "S", K: "OR", Kids: []rnode{e, x}}, rnode{T: "S", K: "AND", Kids: []rnode{x, {T: "leaf"}, e}})
+				}
+			}
 		}
 	}
 	// stacks whose presentation settings change what Kind() prints (symbol, case folding): wrappers,
@@ -634,6 +653,9 @@ func init() {
 			}
 			for _, m := range modes {
 				for _, b := range behs {
+					if !c.Quick() && m >= 2 && b != 0 {
+						continue // thorough: every behaviour mode with no / all mutexes, the other placements plain
+					}
 					c20Run(c, c20Case{trees[i], m, b}, true)
 				}
 			}
